@@ -22,6 +22,12 @@ def set_lit(xs):
     return "{" + ", ".join(str(x) for x in xs) + "}"
 
 
+def is_event_source(f):
+    """vec_300 (random bases), vec_302/303 and vec_5xx (histories) feed `ys record`, not `ys run`."""
+    n = int(re.match(r"vec_(\d+)", f).group(1))
+    return n in (300, 302, 303) or n >= 500
+
+
 def judge_probe(p, r):
     """Compare one observation with the verdict the spec prescribes. Returns (status, what)
     with status in ok | unjudged | disagree."""
@@ -38,7 +44,9 @@ def judge_probe(p, r):
             return "disagree", "valid-rejected-by-compile"
         return "ok", ""
     # reject
-    if o["parseOk"] and (not o["compiled"] or o["compileOk"]):
+    if o["parseOk"] and not o["compiled"]:
+        return "unjudged", ""          # the parser may defer the check to the compiler, which was not run
+    if o["parseOk"] and o["compileOk"]:
         return "disagree", "invalid-accepted"
     if e["locate"]:
         if not o["located"]:
@@ -46,7 +54,8 @@ def judge_probe(p, r):
         hit = False
         for b in e["bad"]:
             # located at the offending statement or its parent, naming the statement it points at or the offending one
-            if o["errPath"] != "-" and o["errPathSeq"] in b["at"] and (b["kw"] in o["named"] or o["errAtKw"] in o["named"]):
+            at = o["errPathSeq"] in b["at"] or (bool(p.get("expand")) and o["errPathSeq"][:-1] in b["at"])   # any of the written-out copies
+            if o["errPath"] != "-" and at and (b["kw"] in o["named"] or o["errAtKw"] in o["named"]):
                 hit = True
         if not hit:
             return "disagree", "rejected-but-misattributed"
@@ -60,8 +69,8 @@ def probe_sig(p, what, o):
     bad = p["exp"]["bad"]
     vkind = bad[0]["kind"] if bad else "none"
     err = re.sub(r"^.*?probe:\d+:\d+: ", "", o["parseErr"] or o["compileErr"] or "")
-    if lab[0] == "card":
-        return dict(fam="card", what=what, phase=phase, site=lab[1], kw=lab[2], n=lab[3], vkind=vkind, argkind="", arg="", err=err)
+    if lab[0] in ("card", "big"):
+        return dict(fam=lab[0], what=what, phase=phase, site=lab[1], kw=lab[2], n=lab[3], vkind=vkind, argkind="", arg="", err=err)
     if lab[0] == "arg":
         return dict(fam="arg", what=what, phase=phase, site=lab[2], kw=lab[2], vkind="argument", argkind=lab[1], arg=lab[3], err=err)
     return dict(fam=lab[0], what=what, phase=phase, site=lab[1], kw=bad[0]["kw"] if bad else "", vkind=vkind, argkind="", arg="", err=err)
@@ -79,8 +88,9 @@ def run(ctx):
     # every family the spec defines: 1..68 parents, 101.. (argument kind, statement) pairs, 200.. order / revision / keyword table / random
     nrand = 300 if quick else 4000
     g = ctx.tlc("YangStmtGen", "YangStmtGen.cfg", workers=8, timeout=800, heap="8g",
-                consts={"Fams": set_lit(range(1, 400)), "MaxCount": 2 if quick else 3, "NRand": nrand,
-                        "RandDepth": 3 if quick else 4, "Thorough": "FALSE" if quick else "TRUE"},
+                consts={"Fams": set_lit(range(1, 700)), "MaxCount": 2 if quick else 3, "NRand": nrand,
+                        "RandDepth": 3 if quick else 4, "Thorough": "FALSE" if quick else "TRUE",
+                        "BigK": 2 if quick else 6, "HistBad": 3 if quick else 12, "HistOk": 2 if quick else 3},
                 extra=["-seed", str(ctx.seed)])
     vecs = sorted(f for f in os.listdir(g["dir"]) if re.match(r"vec_\d+\.ndjson$", f))
     if len(vecs) < NPARENTS + NKINDS + 5 or 2 * len(vecs) != g["distinct"]:
@@ -96,7 +106,7 @@ def run(ctx):
     samples, distinct = [], set()
     selftest = None
     with cf.ThreadPoolExecutor(max_workers=8) as ex:
-        results = list(ex.map(replay, [f for f in vecs if f != "vec_300.ndjson"]))
+        results = list(ex.map(replay, [f for f in vecs if not is_event_source(f)]))
     for f, probes, res in results:
         if len(probes) != len(res):
             raise Infra(f"{f}: {len(probes)} probes, {len(res)} results")
@@ -114,7 +124,7 @@ def run(ctx):
             o = r["obs"]
             stats["compiled"] += 1 if o["compiled"] else 0
             stats[p["exp"]["verdict"]] += 1
-            distinct.add(tuple(p["lab"][:3]) + (p["exp"]["verdict"],))
+            distinct.add(tuple(p["lab"][:4 if famname == "big" else 3]) + (p["exp"]["verdict"],))
             status, what = judge_probe(p, r)
             if selftest is None and status == "ok" and p["exp"]["verdict"] == "accept" and p["clean"]:
                 selftest = (p, r)
@@ -135,15 +145,17 @@ def run(ctx):
     # 3. code -> model
     bases = os.path.join(g["dir"], "vec_300.ndjson")
     events = ctx.path("events.ndjson")
-    ctx.run_bin("ys", ["record", "-in", bases, "-out", events, "-per", "6" if quick else "10"], timeout=900)
+    hists = [os.path.join(g["dir"], f) for f in vecs if is_event_source(f) and f != "vec_300.ndjson"]
+    ctx.run_bin("ys", ["record", "-in", bases, "-out", events, "-per", "6" if quick else "10"] + hists, timeout=900)
     # binding self-test (code -> model): one corrupted event must be rejected by the trace spec
     evs = read_ndjson(events)
+    nhist = sum(1 for e in evs if e["mut"].startswith("hist:"))
     good = next((e for e in evs if e["parseOk"] and e["ok"] and e["mut"] == "none"), None)
     if good is None:
         raise Infra("no accepted unmutated event to corrupt for the trace self-test")
     with open(events, "a") as fh:
         fh.write(json.dumps(dict(good, id=SELFTEST_ID, parseOk=False, ok=False, err="self-test: corrupted event"), separators=(",", ":")) + "\n")
-    fails, nev, evverd = validate_events(ctx, events, nproc=2 if quick else 8)
+    fails, nev, evverd = validate_events(ctx, events, nproc=4 if quick else 8)
     st = [f for f in fails if f["id"] == SELFTEST_ID]
     if len(st) != 1 or st[0]["what"] != "valid-rejected-by-parse":
         raise Infra("trace self-test failed: the corrupted event was not rejected by YangStmtTrace")
@@ -162,7 +174,7 @@ def run(ctx):
         evaluations=stats["probes"] + nev, distinct_nontrivial=len(distinct),
         rule="probes = every (parent, child, count >= 1) triple over 68 parents x 67 keywords (count 0 once per parent and for every required child), every section order / revision list / argument candidate of the spec; "
              "distinct = (family, parent-or-kind, child-or-keyword, verdict) classes; events = mutated TLC-sampled trees judged by YangStmtTrace",
-        samples=samples, probes=stats, events=nev, event_verdicts=evverd, exhaustive=True,
+        samples=samples, probes=stats, events=nev, history_events=nhist, event_verdicts=evverd, exhaustive=True,
         explanation="TLC checked table well-formedness and that every probe's only violation is the intended one (YangStmtMC), generated the probes with their "
                     "prescribed verdicts (YangStmtGen); every probe was run through parse.Parse and compile.CompileParseTrees; mutated random trees were run and judged by TLC (YangStmtTrace)")
     return ctx.finish(cov, [
